@@ -13,9 +13,11 @@
 (* integer zero-padded; [t |-> "e", num, den, n] a real in E format (n = 14:    *)
 (* %14.7E) ; [t |-> "f", num, den, n, p] a real in F format with p decimals;    *)
 (* [t |-> "b", v] rows of bytes.                                                *)
-(* configuration c: nx, ny, sfc, lay : Seq(4-character names), levels : Seq of  *)
-(* [txt, v] (the surface level first; v in 1/10000), nt, start = <<yy, mm, dd,  *)
-(* hh>>, dth (hours between times), base : the first value of each variable.    *)
+(* configuration c: nx, ny, sfc : Seq(4-character names) of the surface level,  *)
+(* levv : per level above the surface the names of its variables (levels may     *)
+(* carry different variables), levels : Seq of [txt, v] (the surface level       *)
+(* first; v in 1/10000), nt, start = <<yy, mm, dd, hh>>, dth (hours between      *)
+(* times), base : the first value of each variable (in the order of AllNames).   *)
 EXTENDS ArlPack, Calendar
 
 RECURSIVE FlattenSeqA(_)
@@ -28,13 +30,27 @@ Ew(num, den) == [t |-> "e", num |-> num, den |-> den, n |-> 14]
 Fw(num, den, n, p) == [t |-> "f", num |-> num, den |-> den, n |-> n, p |-> p]
 Bw(rows) == [t |-> "b", v |-> rows]
 
-\* the field of variable s (1.. over sfc then lay), time t, level l (0 = surface):
-\* integers with neighbour differences between 64 and 255 (exponent 7 or 8)
-Field(c, s, t, l) ==
+\* the layer variables in the order of their first appearance, level by level
+RECURSIVE AddNew(_, _)
+AddNew(acc, names) == IF Len(names) = 0 THEN acc
+                      ELSE AddNew(IF \E q \in 1..Len(acc) : acc[q] = Head(names) THEN acc ELSE Append(acc, Head(names)), Tail(names))
+RECURSIVE LayerNamesFrom(_, _, _)
+LayerNamesFrom(c, l, acc) == IF l > Len(c.levv) THEN acc ELSE LayerNamesFrom(c, l + 1, AddNew(acc, c.levv[l]))
+LayerNames(c) == LayerNamesFrom(c, 1, <<>>)
+AllNames(c) == c.sfc \o LayerNames(c)
+NVars(c) == Len(AllNames(c))
+Idx(c, name) == CHOOSE q \in 1..NVars(c) : AllNames(c)[q] = name
+IsSfc(c, name) == \E q \in 1..Len(c.sfc) : c.sfc[q] = name
+HasOn(c, name, l) == \E q \in 1..Len(c.levv[l]) : c.levv[l][q] = name
+\* the levels (1-based, above the surface) that carry a layer variable
+LevelsOf(c, name) == SelectSeq([l \in 1..Len(c.levv) |-> l], LAMBDA l : HasOn(c, name, l))
+
+\* the field of a variable, time t, level l (0 = surface): integers with neighbour
+\* differences between 64 and 255 (exponent 7 or 8)
+Field(c, name, t, l) ==
+  LET s == Idx(c, name) IN
   [j \in 1..c.ny |-> [i \in 1..c.nx |->
      c.base[s] + 64 * ((3 * j + 2 * i + s + t + l) % 4) + ((j * i + t + 2 * l) % 7)]]
-NVars(c) == Len(c.sfc) + Len(c.lay)
-VarName(c, s) == IF s <= Len(c.sfc) THEN c.sfc[s] ELSE c.lay[s - Len(c.sfc)]
 
 \* ---- time of step t : start + (t - 1) * dth hours (proleptic calendar)
 \* two-digit years: 69-99 are 1969-1999, 00-68 are 2000-2068 (the POSIX %y rule)
@@ -47,19 +63,22 @@ TimeFields(c, t) == LET cv == CivilOfStep(c, t) IN
   << Zw(cv[1] % 100, 2), Zw(cv[2], 2), Zw(cv[3], 2), Zw(cv[4], 2), Zw(c.ff, 2) >>
 
 \* ---- records
-Packed(c, s, t, l) == Pack(Field(c, s, t, l))
+Packed(c, name, t, l) == Pack(Field(c, name, t, l))
 Label(c, t, l, name, nexp, precnum, precden, var1) ==
   TimeFields(c, t) \o << Iw(l, 2), A("99", 2), A(name, 4), Iw(nexp, 4), Ew(precnum, precden), Ew(var1, 1) >>
 \* precision = 2^nexp / 254
-DataRecord(c, s, t, l) ==
-  LET p == Packed(c, s, t, l) IN
-  Label(c, t, l, VarName(c, s), p.nexp, Pow2(p.nexp), 254, p.var1) \o << Bw(p.bytes) >>
-CheckSum(c, s, t, l) == ByteSum(Packed(c, s, t, l)) % 255
+DataRecord(c, name, t, l) ==
+  LET p == Packed(c, name, t, l) IN
+  Label(c, t, l, name, p.nexp, Pow2(p.nexp), 254, p.var1) \o << Bw(p.bytes) >>
+CheckSum(c, name, t, l) == ByteSum(Packed(c, name, t, l)) % 255
+NamesAt(c, li) == IF li = 1 THEN c.sfc ELSE c.levv[li - 1]
 VarDefLevel(c, t, li) ==
-  LET ss == IF li = 1 THEN [q \in 1..Len(c.sfc) |-> q] ELSE [q \in 1..Len(c.lay) |-> Len(c.sfc) + q] IN
-  << A(c.levels[li].txt, 6), Iw(Len(ss), 2) >> \o
-  FlattenSeqA([q \in 1..Len(ss) |-> << A(VarName(c, ss[q]), 4), Iw(CheckSum(c, ss[q], t, li - 1), 3), A(" ", 1) >>])
-VarDefLen(c) == (8 + 8 * Len(c.sfc)) + (Len(c.levels) - 1) * (8 + 8 * Len(c.lay))
+  LET ns == NamesAt(c, li) IN
+  << A(c.levels[li].txt, 6), Iw(Len(ns), 2) >> \o
+  FlattenSeqA([q \in 1..Len(ns) |-> << A(ns[q], 4), Iw(CheckSum(c, ns[q], t, li - 1), 3), A(" ", 1) >>])
+RECURSIVE SumLens(_, _)
+SumLens(c, li) == IF li > Len(c.levels) THEN 0 ELSE 8 + 8 * Len(NamesAt(c, li)) + SumLens(c, li + 1)
+VarDefLen(c) == SumLens(c, 1)
 LenH(c) == 108 + VarDefLen(c)
 RecLen(c) == 50 + c.nx * c.ny
 IndexRecord(c, t) ==
@@ -74,8 +93,8 @@ IndexRecord(c, t) ==
   << A("", RecLen(c) - 158 - VarDefLen(c)) >>
 TimeBlock(c, t) ==
   << IndexRecord(c, t) >> \o
-  [s \in 1..Len(c.sfc) |-> DataRecord(c, s, t, 0)] \o
-  FlattenSeqA([l \in 1..(Len(c.levels) - 1) |-> [q \in 1..Len(c.lay) |-> DataRecord(c, Len(c.sfc) + q, t, l)]])
+  [q \in 1..Len(c.sfc) |-> DataRecord(c, c.sfc[q], t, 0)] \o
+  FlattenSeqA([l \in 1..Len(c.levv) |-> [q \in 1..Len(c.levv[l]) |-> DataRecord(c, c.levv[l][q], t, l)]])
 ArlFile(c) == FlattenSeqA([t \in 1..c.nt |-> TimeBlock(c, t)])
 
 \* ---- sizes
@@ -86,11 +105,13 @@ RecBytesA(r) == IF Len(r) = 0 THEN 0 ELSE FieldBytes(Head(r)) + RecBytesA(Tail(r
 \* after the 158-byte fixed part, so the index record must hold them
 AllRecordsSized(c) == \A r \in 1..Len(ArlFile(c)) : RecBytesA(ArlFile(c)[r]) = RecLen(c)
 ReaderWindowFits(c) == 158 + LenH(c) <= RecLen(c)
-RecordsPerTime(c) == 1 + Len(c.sfc) + (Len(c.levels) - 1) * Len(c.lay)
+RECURSIVE CountLev(_, _)
+CountLev(c, l) == IF l > Len(c.levv) THEN 0 ELSE Len(c.levv[l]) + CountLev(c, l + 1)
+RecordsPerTime(c) == 1 + Len(c.sfc) + CountLev(c, 1)
 
 \* ---- what a reader must present
 \* hours since the first time
 HoursSince(c, t) == (t - 1) * c.dth
 \* the unpacked field: the running reconstruction of the packing (exact)
-ExpField(c, s, t, l) == Packed(c, s, t, l).recon
+ExpField(c, name, t, l) == Packed(c, name, t, l).recon
 =================================================================================
